@@ -74,7 +74,7 @@ VARIABLES mem, rd, obj, reg, frames, q, lead, nops, hist, last,
           rcv,        \* rcv[T]: what the kept receiver of type T holds (the last message decoded into it)
           rfl         \* rfl[T]: "fresh" | "used" | "refused" (the last decode into it was refused)
 vars == <<mem, rd, obj, reg, frames, q, lead, nops, hist, last, scratch, rcv, rfl>>
-AllOps == {"encode", "decode", "refused", "next", "reset", "write", "stale", "registry"}
+AllOps == {"encode", "decode", "refused", "next", "reset", "write", "stale", "registry"}    \* ("partial" only where a configuration lists it)
 UTypes == {Msgs[m].t : m \in MsgIds}
 
 Unread == Drop(mem, rd)
@@ -206,6 +206,19 @@ WriteRaw ==
   /\ Log([op |-> "write", bytes |-> JunkBytes, post |-> Unread \o JunkBytes])
   /\ UNCHANGED <<rd, obj, reg, frames, q, scratch, rcv, rfl>>
 
+(* a partial segment arrives: the first half of a message's encoding is appended (what a receive loop sees when a frame *)
+(* is split across TCP segments); a decode of it is refused (C11), and with kept receivers the refusal comes after the *)
+(* decoder has read the discriminator and part of the body                                                             *)
+Partial(m) ==
+  /\ nops < MaxOps /\ "partial" \in OpSet
+  /\ LET b == ExpectedEnc(Msgs[m].t, obj[m], reg).bytes
+         pre == SubSeq(b, 1, Len(b) \div 2)
+     IN /\ Len(pre) > 0
+        /\ mem' = mem \o pre
+        /\ IF Len(q) = 0 THEN lead' = Len(Unread) + Len(pre) ELSE UNCHANGED lead
+        /\ Log([op |-> "write", bytes |-> pre, post |-> Unread \o pre])
+  /\ UNCHANGED <<rd, obj, reg, frames, q, scratch, rcv, rfl>>
+
 (* the caller leaves junk in the self-computed fields *)
 SetStale(m) ==
   /\ nops < MaxOps /\ "stale" \in OpSet /\ Msgs[m].t \in FrameTypes
@@ -230,7 +243,7 @@ RestoreSvc(a) ==
   /\ Log([op |-> "regrestore", alg |-> a])
   /\ UNCHANGED <<mem, rd, obj, frames, q, lead, scratch, rcv, rfl>>
 
-Next == \/ \E m \in MsgIds : Encode(m) \/ SetStale(m)
+Next == \/ \E m \in MsgIds : Encode(m) \/ SetStale(m) \/ Partial(m)
         \/ \E a \in UsedAlgs : RemoveSvc(a) \/ RestoreSvc(a)
         \/ \E T \in UTypes : Decode(T) \/ DecodeRefused(T)
         \/ \E k \in {1, 5} \cup (IF Len(q) > 0 /\ lead = 0 THEN {Len(q[1].bytes)} ELSE {}) : NextK(k)
